@@ -680,3 +680,99 @@ def run_clock_routes(v, tier, seed, name="routes_clock", n_quick=150, n_thorough
     v.coverage.setdefault(name, {}).update({"route_pairs_compared": ncmp, "with_negative_skew": nneg, "violations": nviol,
         "rule": "snapshot route vs callback route with node clock skews and clock-reporting handlers; compared only where the routes agree without the readings"})
     return nviol
+
+
+MC_CLOCK_MARK = "# probe: mc-clock"
+
+
+def gen_mc_clock(rng):
+    """handlers that report the clock they are handed, run by the model checker on nodes with clock skews: message, timer and
+    local-message handlers, chained over two or three nodes"""
+    nn = rng.choice([2, 2, 3])
+    nodes = [f"n{i}" for i in range(nn)]
+    s = rng.randrange(sim_suite.DEFAULT["seeds"])
+    lines = [f"seed {s}", f"draws {sim_suite.draws_for(s)}"] + [f"node {n}" for n in nodes]
+    lines += ["proc p0 n0", "proc p1 n1", f"proc p2 {nodes[-1]}"]
+    both = rng.random() < 0.5
+    lines.append("rule p0 0 L:m0 1 S:m1:=a:p1" + (" S:m1:=a:p2" if both else ""))
+    back = rng.random() < 0.6
+    lines.append(f"rule p1 0 M:m1 1 K:m2 {rng.choice(['T', 'O'])}:t0:{rng.randint(0, 2)}" + (" S:m3:=b:p0" if back else ""))
+    lines.append("rule p1 1 T:t0 2 K:m3" + (" S:m4:=c:p2" if rng.random() < 0.5 else ""))
+    lines.append("rule p0 1 M:m3 2 K:m4 L:m5:=x")
+    lines.append("rule p2 0 M:m1 1 K:m2")
+    lines.append("rule p2 0 M:m4 1 K:m6")
+    lines.append("rule p2 1 M:m4 2 K:m6")
+    for n in nodes:
+        if rng.random() < 0.85:
+            lines.append(f"skew {n} {sim_suite.fbits(rng.choice([0.37, -0.23, 1.41, 5.03, -2.77, 0.013]))}")
+    lines += [f"net delay {rng.choice([1, 2])}", "local p0 m0 =go",
+              f"mc run {rng.choice(['dfs', 'bfs'])} {rng.choice(['disabled', 'full'])} inv=none goal=noev prune=none collect=none", "obs"]
+    return lines
+
+
+def mc_clock_monitor(lines, out):
+    """under the model checker a handler invoked at depth k reads 0.1 * k + the clock skew of its node (readme: the clock is
+    approximated from the depth); the readings a process has put into its outbox, in order, must therefore be 0.1 * k + skew for
+    non-decreasing k between 1 and the depth of the state"""
+    skew = {l.split()[1]: sim_suite_val(l.split()[2]) for l in lines if l.startswith("skew ")}
+    for l in out:
+        if not l.startswith("E "):
+            continue
+        m = re.search(r" d=(\d+)", l)
+        if not m:
+            continue
+        d = int(m.group(1))
+        for node, body in re.findall(r"(n\d+):c\d+\{([^}]*)\}", l.split(" E[")[0]):
+            for proc_part in body.split("/"):       # the processes of a node are separated by "/"
+                last = 0
+                for h in re.findall(r"=([0-9a-f]{16})\b", proc_part):
+                    r = struct.unpack(">d", bytes.fromhex(h))[0] - skew.get(node, 0.0)
+                    k = round(r * 10)
+                    if abs(r - 0.1 * k) > 1e-9 or not (max(last, 1) <= k <= d):
+                        return (f"a handler on node {node} (clock skew {skew.get(node, 0.0)}) read the clock {r + skew.get(node, 0.0)!r} in a state at depth {d}: "
+                                f"not 0.1 * k + skew for a step k of the path (earlier reading at step {last}); state: {l[:300]}")
+                    last = k
+    return None
+
+
+def sim_suite_val(tok):
+    return struct.unpack(">d", bytes.fromhex(tok[1:]))[0] if tok.startswith("x") else int(tok) * 0.5
+
+
+def mc_clock_probe(v, tier, seed, name="mc_clock"):
+    """C02 (handlers react ... ends in exactly that state), implementation only: the Lean model has no handler clock under the checker"""
+    from .common import run_blocks, VH, JOBS, chunks, STALL_S
+    from concurrent.futures import ThreadPoolExecutor
+    rng = random.Random(seed * 6151 + 3)
+    scen = [(f"k{i}", gen_mc_clock(rng)) for i in range(80 if tier == "quick" else 1500)]
+    out = {}
+    with ThreadPoolExecutor(max_workers=JOBS) as ex:
+        for o, rc, err in ex.map(lambda part: run_blocks([VH, "sim"], part, STALL_S), chunks([sim_suite.block(n, l) for n, l in scen], JOBS)):
+            out.update(o)
+    nviol = nread = 0
+    for nm, lines in scen:
+        a = out.get(nm, [])
+        nread += sum(len(re.findall(r"=[0-9a-f]{16}\b", l)) for l in a if l.startswith("E "))
+        msg = mc_clock_monitor(lines, a)
+        if msg:
+            if nviol < 3:
+                v.violation(f"{name}-{nm}.txt", f"# property {v.pid}: {msg}\n{MC_CLOCK_MARK}\n# replay: /verif/check {v.pid} --replay <this file>\n" + "".join(l + "\n" for l in lines))
+            nviol += 1
+    v.coverage.setdefault(name, {}).update({"programs": len(scen), "clock_readings_checked": nread, "violations": nviol,
+        "rule": "implementation only: under the checker every handler (message, timer, local message) on a node with clock skew s invoked at step k "
+                "reads 0.1 * k + s; readings are taken from the outboxes of every evaluated state"})
+    return nviol
+
+
+def mc_clock_replay(v, path):
+    from .common import run_blocks, VH
+    lines = [l.strip() for l in open(path) if l.strip() and not l.startswith("#")]
+    if not any(l.startswith("draws") for l in lines):
+        s = next((int(l.split()[1]) for l in lines if l.startswith("seed ")), 1)
+        lines.insert(1, f"draws {sim_suite.draws_for(s)}")
+    o, _, _ = run_blocks([VH, "sim"], [sim_suite.block("x", lines)], 60)
+    print("implementation:"); print("\n".join(l[:300] for l in o.get("x", [])[:40]))
+    msg = mc_clock_monitor(lines, o.get("x", []))
+    if msg:
+        print("MONITOR:", msg)
+        v.violation("replay.txt", open(path).read())
